@@ -47,6 +47,8 @@ var c14Shapes = []string{
 	"permessage-deflate; client_max_window_bits=7",   // malformed: out of range
 	"permessage-deflate; client_max_window_bits=16",  // malformed: out of range
 	"permessage-deflate; client_max_window_bits=abc", // malformed: not a number
+	"permessage-deflate; client_max_window_bits=010", // malformed: leading zero (numerically in range)
+	"permessage-deflate; client_max_window_bits=+10", // malformed: sign
 	"permessage-deflate; server_max_window_bits=15",
 	"permessage-deflate; server_max_window_bits=10",                              // well-formed, this server cannot honour it
 	"permessage-deflate; server_max_window_bits",                                 // malformed: needs a value
@@ -269,7 +271,13 @@ func exchange(c *fw.Ctx, ctx context.Context, conn *websocket.Conn, mc *memConn,
 	for i, msg := range c14Msgs {
 		f := pmd.Frame{Fin: true, Opcode: pmd.OpText, Payload: msg, Masked: !libIsClient, MaskKey: [4]byte{0x12, 0x34 + byte(i), 0x56, 0x78}}
 		if agreed != nil {
-			p, err := snd.Compress(msg)
+			// the first message ends with a final deflate block (RFC 7692 7.2.3.4); the
+			// later ones repeat its content, i.e. refer back to it if the context is kept
+			compress := snd.Compress
+			if i == 0 {
+				compress = snd.CompressFinal
+			}
+			p, err := compress(msg)
 			if err != nil {
 				c.EngineError("reference sender: " + err.Error())
 				return fails
